@@ -23,14 +23,26 @@ type bval struct {
 	ok bool
 }
 
-func (ev *byteEval) call(fd *ast.FuncDecl, arg constant.Value) (constant.Value, bool) {
-	if ev.depth > 6 || fd == nil || fd.Body == nil || fd.Recv != nil || fd.Type.Params == nil ||
-		len(fd.Type.Params.List) != 1 || len(fd.Type.Params.List[0].Names) != 1 {
+func (ev *byteEval) call(fd *ast.FuncDecl, args ...constant.Value) (constant.Value, bool) {
+	if ev.depth > 6 || fd == nil || fd.Body == nil || fd.Recv != nil || fd.Type.Params == nil {
 		return nil, false
 	}
 	ev.depth++
 	defer func() { ev.depth-- }()
-	env := map[types.Object]constant.Value{ev.m.Pkg.TypesInfo.ObjectOf(fd.Type.Params.List[0].Names[0]): arg}
+	env := map[types.Object]constant.Value{}
+	i := 0
+	for _, fl := range fd.Type.Params.List {
+		for _, nm := range fl.Names {
+			if i >= len(args) {
+				return nil, false
+			}
+			env[ev.m.Pkg.TypesInfo.ObjectOf(nm)] = args[i]
+			i++
+		}
+	}
+	if i != len(args) || i == 0 {
+		return nil, false
+	}
 	v, done, ok := ev.stmts(fd.Body.List, env)
 	if !ok || !done {
 		return nil, false
@@ -219,24 +231,38 @@ func (ev *byteEval) expr(e ast.Expr, env map[types.Object]constant.Value) (const
 		}
 		return nil, false
 	case *ast.CallExpr:
-		if len(x.Args) != 1 {
+		if len(x.Args) == 0 || x.Ellipsis != token.NoPos {
 			return nil, false
 		}
-		a, ok := ev.expr(x.Args[0], env)
-		if !ok {
-			return nil, false
+		var args []constant.Value
+		for _, ae := range x.Args {
+			a, ok := ev.expr(ae, env)
+			if !ok {
+				return nil, false
+			}
+			args = append(args, a)
 		}
 		if tv, ok := info.Types[x.Fun]; ok && tv.IsType() {
-			return wrap(a, x)
+			if len(args) != 1 {
+				return nil, false
+			}
+			return wrap(args[0], x)
 		}
 		callee := ev.m.callee(x)
 		if callee == nil || callee.Pkg() != ev.m.Pkg.Types {
 			return nil, false
 		}
-		if sig := callee.Type().(*types.Signature); sig.Recv() != nil || sig.Params().Len() != 1 || !isByte(sig.Params().At(0).Type()) {
+		sig := callee.Type().(*types.Signature)
+		if sig.Recv() != nil || sig.Variadic() || sig.Params().Len() != len(args) {
 			return nil, false
 		}
-		return ev.call(ev.m.Prog.Decl(callee), a)
+		for i := 0; i < sig.Params().Len(); i++ {
+			b, ok := sig.Params().At(i).Type().Underlying().(*types.Basic)
+			if !ok || (b.Kind() != types.Uint8 && b.Kind() != types.Bool) {
+				return nil, false
+			}
+		}
+		return ev.call(ev.m.Prog.Decl(callee), args...)
 	}
 	return nil, false
 }
